@@ -50,8 +50,8 @@ check(
 check(
     "C01",
     "bounded symbolic execution (SX, z3 LIA) of the hand-written get_params/set_params code with symbolic parameter values and a symbolic (realised) choice of the key being set; real sklearn.base.clone; concrete-mode replay of the same scenario",
-    "For SkBase, SkBaseTransformLearner (5 method options), SkBaseTransformStacking (1..13 members, wrapped and unwrapped), ClassifierAfterKMeans and ApproximateNMFPredictor: get_params reports the configuration; for EVERY advertised key and every integer value, set_params returns the estimator, changes exactly that key (nested/indexed keys included) and transform follows; set_params(**other.get_params(deep=True)) gives equal parameters and identical outputs; clone gives distinct unfitted objects with equal parameters and outputs.",
-    "scikit-learn's generic BaseEstimator protocol is trusted; inner models are parameter-holding look-alikes with polynomial outputs. Estimators that inherit BaseEstimator's protocol unchanged are outside this check. Two interface-level defects (ANMF keyword sets, clone of ClassifierAfterKMeans with a non-default estimator) are listed known findings.",
+    "For SkBase, SkBaseTransformLearner (5 method options), SkBaseTransformStacking (1..13 members, wrapped and unwrapped), ClassifierAfterKMeans and ApproximateNMFPredictor: get_params reports the configuration; for EVERY advertised key and every integer value, set_params returns the estimator, changes exactly that key (nested/indexed keys included) and transform follows; set_params(**other.get_params(deep=True)) gives equal parameters and identical outputs; clone gives distinct unfitted objects with equal parameters and outputs. SkBase also takes keys it was not built with from another instance. Behaviour round trip for two scikit-learn style estimators: after set_params(**other.get_params(deep=True)) KMeansL1L2 runs the implementation of its current norm and a QuantileLinearRegression fitted before builds its inner solver from the current parameters.",
+    "scikit-learn's generic BaseEstimator protocol is trusted; inner models are parameter-holding look-alikes with polynomial outputs. Other estimators that inherit BaseEstimator's protocol unchanged are outside this check (their configuration-after-construction behaviour is checked with their own property: C05, C06, C10, C11, C19, C20). Two interface-level defects (ANMF keyword sets, clone of ClassifierAfterKMeans with a non-default estimator) are listed known findings.",
     "DESIGN.md 3.C01",
 )
 check(
@@ -138,3 +138,32 @@ check(
     "The solver's share is the enumeration of structures (no arithmetic). Leaf estimators are tagged stubs; third-party containers (azureml, sklearn-pandas) and TransformedTargetRegressor are outside; wider/deeper pipelines are outside the bound.",
     "DESIGN.md 3.C16",
 )
+
+
+# claims added while the checks were strengthened against the seeded rounds 3 and 4 (DESIGN.md section 3,
+# "Additions made for the third / fourth round"): appended to the level text of each check
+EXTRA = {
+    "C02": " Also: the binner parameter of a piecewise estimator and the default regressor of TransformedTargetRegressor2(regressor=None) are never trained / stored into the parameter; a caller's float64 sample_weight given to KMeansL1L2 is untouched; a second fault point inside the per-leaf regressions of PiecewiseTreeRegressor.",
+    "C03": " Also: DecisionTreeLogisticRegression fitted twice trains every node classifier once and never its estimator parameter; PiecewiseTreeRegressor's leaf regressions follow a second tree with as many leaves under other node ids.",
+    "C04": " Also: two symbolic rows at the ends of a 600-row batch (transform_bins) and inside a 12-row batch (KMeansL1L2.predict, ties included) give what they give alone; a ConstraintKMeans with symbolic learned cluster weights and its clone_with_fitted_parameters copy answer the same transform/score.",
+    "C05": " Also: score on a column target at q=0.5; integer-typed weights (multiplicities) in the repetition lemma; the step lemma on an estimator built with the defaults and configured through set_params.",
+    "C06": " Also: caller-supplied centres anywhere (max_iter 1-2, symbolic tolerance; range clause for the centres that own a point); with norm='L2' KMeans.fit finds on the object exactly the constructor's parameters (symbolic k, n_init, max_iter, tol, seed) and get_params reports them.",
+    "C07": " Also: n_iter_ <= max_iter through the real fit loop with KMeans.fit as its contract and arbitrary inertia per iteration (max_iter <= 5/9), every association of fit with quota n//k and leftover n-k*quota whatever the initial labels; balanced predictions on a batch of SYMBOLIC size (k <= n <= 100000): one association over all rows with that quota.",
+    "C08": " Also: a real KBinsDiscretizer subclass as binner (documented routing rule on symbols, validated against the parent class): a symbolic row, exactly on an edge included, is predicted by the model of the cell the binner puts it in.",
+    "C09": " Also: the least-squares driver must be given its documented workspace; a zero weight inside the range (C division semantics); leaf regressions after a refit on a tree with other node ids; checked on the compiled code: rank-deficient leaves and leaves of 2-5 rows.",
+    "C10": " Also: an integer-typed query matrix and a label pair of unequal-length strings.",
+    "C11": " Also: caller-supplied column names that contain one another; a flag changed by set_params followed by a refit on the same width.",
+    "C12": " Also: trees numbered level by level (best-first builder); the compiled tree against numpy.digitize at x = NaN and with uint8/int32/float32 edges.",
+    "C13": " Also: the transformer given as an object is cloned, never fitted; sample_weight (constant or varying) reaches the inner classifier / regressor together with the transformed target.",
+    "C14": " Also: binary=True; an object that still carries the vocabulary_ of a previous fit; set_params(ngram_range) on a used object.",
+    "C15": " Also: set_params(model=new) alone then fit/transform; stacking fitted with sample_weight; a fitted composite estimator (state in its parts) behind a frozen TransferTransformer; models that update their arrays in place.",
+    "C16": " Also: enumerate_pipeline_models over 7x7 ColumnTransformer column selections (scalar 0, empty list, names...); the caller refills the same array/frame in place and calls again: instrumented pipeline == never-instrumented twin.",
+    "C17": " Also: after the members are replaced as a new fit does, the same batch object is answered by the new members; a 1030-row batch with symbolic last rows; n_jobs in {2,3} at prediction time.",
+    "C18": " Also: every (i, j, draw) is learnt by its own fresh clone and the model given is never trained.",
+    "C19": " Also: falsy categories ('' and 0); skip_errors set through set_params; an object fitted and used on another table before; a table to transform with permuted columns.",
+    "C20": " Also: a model object that framed another series with another past before (set_params in between); if the code under test takes len() of the series the claim degrades to lengths up to min+12 and says so.",
+}
+for _pid, _txt in EXTRA.items():
+    if _pid in CHECKS:
+        _t = CHECKS[_pid]
+        CHECKS[_pid] = (_t[0], _t[1] + _txt, _t[2], _t[3])
